@@ -45,7 +45,35 @@ def gen_mag(rng):
         return 1.0
     if u < 0.8:
         return rng.uniform(0.3, 3.0)
-    return 1.0 + rng.choice([-1, 1]) * rng.loguniform(1e-6, 5e-3)
+    return 1.0 + rng.choice([-1, 1]) * rng.loguniform(1e-4, 5e-3)
+
+
+def max_phase(fn, N, wvl, d1, d2=None, z=None, f=None):
+    """largest argument of the complex exponentials the propagator evaluates: an argument of size phi carries an
+    absolute rounding error ~ phi * 2^-52 in BOTH the implementation and the model (different cos/sin routines), so the
+    comparison tolerance has to grow with it when the sampling approaches the wavelength or the magnification approaches 1"""
+    k = 2 * math.pi / wvl
+    h = N / 2.0
+    if fn == "angularSpectrum":
+        mag = d2 / d1
+        return max(k / 2 * abs(1 - mag) / abs(z) * 2 * (h * d1) ** 2, math.pi ** 2 * 2 * abs(z) / (mag * k) * 2 * (h / (N * d1)) ** 2,
+                   k / 2 * abs(mag - 1) / (mag * abs(z)) * 2 * (h * d2) ** 2)
+    if fn == "oneStepFresnel":
+        dd = wvl * abs(z) / (N * d1)
+        return k / (2 * abs(z)) * 2 * max((h * d1) ** 2, (h * dd) ** 2)
+    if fn == "twoStepFresnel":
+        m = d2 / d1
+        Dz1 = z / 2.0 if m == 1 else z / (1 - m)
+        Dz2 = z - Dz1
+        d1a = wvl * abs(Dz1) / (N * d1)
+        return max(k / (2 * abs(Dz1)) * 2 * max((h * d1) ** 2, (h * d1a) ** 2), k / (2 * abs(Dz2)) * 2 * max((h * d1a) ** 2, (h * d2) ** 2))
+    if fn == "lensAgainst":
+        return k / (2 * abs(f)) * 2 * (wvl * abs(f) / (2 * d1)) ** 2
+    return 0.0
+
+
+def phase_tol(phi):
+    return 1e-8 + 2e-14 * phi
 
 
 def gen_cases(rng, tier, pid):
@@ -55,8 +83,10 @@ def gen_cases(rng, tier, pid):
     cases, meta = [], []
     def add(name, expr, out, info):
         sc = float(numpy.max(numpy.abs(out)))
-        cases.append(expr % hexf(sc))
-        meta.append(dict(info, fn=name, max_abs=sc, finite=bool(numpy.all(numpy.isfinite(out)))))
+        phi = max_phase(name, info["N"], info.get("wvl", 1e-6), info.get("d1", 1e-3), info.get("d2"), info.get("z"), info.get("f")) if info.get("z", 1) != 0 else 0.0
+        # okm compares with 1e-8 * scale: widen the scale by the phase-dependent factor
+        cases.append(expr % hexf(sc * phase_tol(phi) / 1e-8))
+        meta.append(dict(info, fn=name, max_abs=sc, max_phase=phi, finite=bool(numpy.all(numpy.isfinite(out)))))
     for N in sizes:
         for _ in range(reps):
             U = rand_field(npr, N)
